@@ -39,6 +39,13 @@ CHECKS = {
             '(with their nextafter neighbours) is compared with an exact integer crossing-number oracle. Plume tables within the deviation bound are compared with an independent implementation of the statement.',
             'Polygons beyond the lattice / vertex bound and plume tables beyond the deviation bound are not covered; spherical boundary points and plume points within 1e-9 of the rim are skipped and counted.',
             'DESIGN.md section 3 C04'),
+    'C19': ('exploration', 'E1',
+            'bounded exhaustive enumeration of kernel inputs on small integer lattices (all point subsets and insertion orders, all simple polygons, all polylines with bends <= 60 degrees, all lattice pairs on the sphere) with brute-force / exact oracles',
+            'The kd-tree is built from every subset of up to 5|6 lattice points in every insertion order and queried at every half-step point (ties included); the polygon kernel is run on every '
+            'simple lattice polygon at every half-step point with an exact integer oracle (all edge and vertex points included); every lattice polyline with bends <= 60 degrees is turned into a '
+            'Bezier curve whose closest-point answers are compared with dense sampling plus refinement; conversions and the great-circle distance are compared on a full (lon,lat) lattice, all pairs.',
+            'Kernels are called directly through their public headers; lattice sizes bound the claim. Bezier queries whose nearest curve point is a curve end are not judged.',
+            'DESIGN.md section 3 C19'),
 }
 NOT_YET = {}
 
